@@ -38,8 +38,8 @@ theorem CoreEq.trans {r₁ r₂ r₃ : Rec} (a : CoreEq r₁ r₂) (b : CoreEq r
   · rw [b.defs, a.defs]
   · rw [b.regionOf, a.regionOf]
 
-theorem InvCore.congr {L : Live} {ever : List AreaT} {r r' : Rec} (h : InvCore L ever r) (e : CoreEq r r') :
-    InvCore L ever r' := by
+theorem InvCore.congr {S : Prop} {L : Live} {ever : List AreaT} {r r' : Rec} (h : InvCore S L ever r) (e : CoreEq r r') :
+    InvCore S L ever r' := by
   have hreg : registered r' = registered r := by simp only [registered, e.regions, e.protos, e.cands, e.subs]
   have hptr : ∀ gid, r'.regionOfGene gid = r.regionOfGene gid := fun gid => by simp only [Rec.regionOfGene, e.regionOf]
   constructor
@@ -70,8 +70,8 @@ theorem InvCore.congr {L : Live} {ever : List AreaT} {r r' : Rec} (h : InvCore L
   · rw [e.genes, e.regions]; simp only [hptr]; exact h.regionPtr
 
 /-- more collections may have been seen than are needed -/
-theorem InvCore.ever_mono {L : Live} {ever ever' : List AreaT} {r : Rec} (h : InvCore L ever r)
-    (hsub : ∀ a ∈ ever, a ∈ ever') (hok : ∀ a ∈ ever', AreaOK a) : InvCore L ever' r :=
+theorem InvCore.ever_mono {S : Prop} {L : Live} {ever ever' : List AreaT} {r : Rec} (h : InvCore S L ever r)
+    (hsub : ∀ a ∈ ever, a ∈ ever') (hok : ∀ a ∈ ever', AreaOK a) : InvCore S L ever' r :=
   { h with
     liveEver := fun a ha => hsub a (h.liveEver a ha)
     areasOK := hok
@@ -79,8 +79,8 @@ theorem InvCore.ever_mono {L : Live} {ever ever' : List AreaT} {r : Rec} (h : In
       obtain ⟨g, hg, d, hl, e⟩ := h.membersSound x hx; exact ⟨g, hg, d, hl.mono hsub, e⟩
     sectionsSound := fun x hx => by
       obtain ⟨g, hg, d, s, hl, e⟩ := h.sectionsSound x hx; exact ⟨g, hg, d, s, hl.mono hsub, e⟩
-    defsSound := fun x hx => by
-      obtain ⟨g, hg, d, hl, hd, e⟩ := h.defsSound x hx; exact ⟨g, hg, d, hl.mono hsub, hd, e⟩ }
+    defsSound := fun hS x hx => by
+      obtain ⟨g, hg, d, hl, hd, e⟩ := h.defsSound hS x hx; exact ⟨g, hg, d, hl.mono hsub, hd, e⟩ }
 
 theorem mem_children (r : Rec) (aid gid : Nat) : gid ∈ r.children aid ↔ (aid, gid) ∈ r.members := by
   simp only [Rec.children, List.mem_map, List.mem_filter, beq_iff_eq]
@@ -90,8 +90,8 @@ theorem mem_children (r : Rec) (aid gid : Nat) : gid ∈ r.children aid ↔ (aid
 
 /-! ### `clear_regions` -/
 
-theorem InvCore.clearRegions {L : Live} {ever : List AreaT} {r : Rec} (h : InvCore L ever r) :
-    InvCore { L with regions := [] } ever (Lookup.clearRegions r) := by
+theorem InvCore.clearRegions {S : Prop} {L : Live} {ever : List AreaT} {r : Rec} (h : InvCore S L ever r) :
+    InvCore S { L with regions := [] } ever (Lookup.clearRegions r) := by
   have hsub : ∀ a ∈ registered (Lookup.clearRegions r), a ∈ registered r := by
     intro a ha
     have : registered (Lookup.clearRegions r) = r.protos ++ r.cands ++ r.subs := by
@@ -116,7 +116,7 @@ theorem InvCore.clearRegions {L : Live} {ever : List AreaT} {r : Rec} (h : InvCo
            sectionsSound := h.sectionsSound,
            sectionsComplete := fun g hg d s hl => h.sectionsComplete g hg d s (hl.mono hsub),
            defsSound := h.defsSound, cover := h.cover, defsSub := h.defsSub,
-           defsComplete := fun g hg d hl hd => h.defsComplete g hg d (hl.mono hsub) hd,
+           defsComplete := fun hS g hg d hl hd => h.defsComplete hS g hg d (hl.mono hsub) hd,
            regionKeys := ?_, regionPtr := ?_ }
   · intro x hx
     simp only [Lookup.clearRegions, List.mem_append] at hx
@@ -149,8 +149,8 @@ theorem InvCore.clearRegions {L : Live} {ever : List AreaT} {r : Rec} (h : InvCo
 theorem InvCache.clearRegions {r : Rec} (c : InvCache r) : InvCache (Lookup.clearRegions r) :=
   ⟨c.cds, c.slot, c.tuple⟩
 
-theorem Inv.clearRegions {L : Live} {ever : List AreaT} {r : Rec} (h : Inv L ever r) :
-    Inv { L with regions := [] } ever (Lookup.clearRegions r) := ⟨h.core.clearRegions, h.cache.clearRegions⟩
+theorem Inv.clearRegions {S : Prop} {L : Live} {ever : List AreaT} {r : Rec} (h : Inv S L ever r) :
+    Inv S { L with regions := [] } ever (Lookup.clearRegions r) := ⟨h.core.clearRegions, h.cache.clearRegions⟩
 
 /-! ### dropping collections from the record's lists -/
 
@@ -159,8 +159,8 @@ def dropLists (r : Rec) (p c s : Bool) : Rec :=
 def Live.drop (L : Live) (p c s : Bool) : Live :=
   { L with protos := if p then [] else L.protos, cands := if c then [] else L.cands, subs := if s then [] else L.subs }
 
-theorem Inv.drop {L : Live} {ever : List AreaT} {r : Rec} (h : Inv L ever r) (p c s : Bool) :
-    Inv (L.drop p c s) ever (dropLists r p c s) := by
+theorem Inv.drop {S : Prop} {L : Live} {ever : List AreaT} {r : Rec} (h : Inv S L ever r) (p c s : Bool) :
+    Inv S (L.drop p c s) ever (dropLists r p c s) := by
   have hc := h.core
   have hsub : ∀ a ∈ registered (dropLists r p c s), a ∈ registered r := by
     intro a ha
@@ -180,7 +180,7 @@ theorem Inv.drop {L : Live} {ever : List AreaT} {r : Rec} (h : Inv L ever r) (p 
            sectionsSound := hc.sectionsSound,
            sectionsComplete := fun g hg d s hl => hc.sectionsComplete g hg d s (hl.mono hsub),
            defsSound := hc.defsSound, cover := hc.cover, defsSub := hc.defsSub,
-           defsComplete := fun g hg d hl hd => hc.defsComplete g hg d (hl.mono hsub) hd,
+           defsComplete := fun hS g hg d hl hd => hc.defsComplete hS g hg d (hl.mono hsub) hd,
            regionKeys := hc.regionKeys, regionPtr := hc.regionPtr }
   · cases p <;> simp [hc.protosEq, dropLists, Live.drop]
   · cases c <;> simp [hc.candsEq, dropLists, Live.drop]
@@ -195,18 +195,18 @@ theorem Inv.drop {L : Live} {ever : List AreaT} {r : Rec} (h : Inv L ever r) (p 
 
 /-! ### re-creating regions -/
 
-theorem Inv.ever_mono {L : Live} {ever ever' : List AreaT} {r : Rec} (h : Inv L ever r)
-    (hsub : ∀ a ∈ ever, a ∈ ever') (hok : ∀ a ∈ ever', AreaOK a) : Inv L ever' r :=
+theorem Inv.ever_mono {S : Prop} {L : Live} {ever ever' : List AreaT} {r : Rec} (h : Inv S L ever r)
+    (hsub : ∀ a ∈ ever, a ∈ ever') (hok : ∀ a ∈ ever', AreaOK a) : Inv S L ever' r :=
   ⟨h.core.ever_mono hsub hok, h.cache⟩
 
-theorem Inv.createRegions : ∀ (new : List AreaT) {L : Live} {ever : List AreaT} {r r' : Rec}, Inv L ever r →
+theorem Inv.createRegions : ∀ (new : List AreaT) {S : Prop} {L : Live} {ever : List AreaT} {r r' : Rec}, Inv S L ever r →
     (∀ a ∈ new, AreaOK a ∧ a.kind = .region) → Lookup.createRegions r new = .ok r' →
-    Inv { L with regions := L.regions ++ new } (ever ++ new) r'
-  | [], L, ever, r, r', h, _, hrun => by
+    Inv S { L with regions := L.regions ++ new } (ever ++ new) r'
+  | [], S, L, ever, r, r', h, _, hrun => by
     simp only [Lookup.createRegions, List.foldlM_nil, pure, Except.pure] at hrun
     injection hrun with hrun; subst hrun
     simpa using h
-  | a :: rest, L, ever, r, r', h, hnew, hrun => by
+  | a :: rest, S, L, ever, r, r', h, hnew, hrun => by
     simp only [Lookup.createRegions, List.foldlM_cons, bind, Except.bind] at hrun
     cases hs : Lookup.addArea r a with
     | error e => rw [hs] at hrun; cases hrun
@@ -219,9 +219,9 @@ theorem Inv.createRegions : ∀ (new : List AreaT) {L : Live} {ever : List AreaT
       have := Inv.createRegions rest h1 (fun x hx => hnew x (by simp [hx])) hrun
       simpa [List.append_assoc] using this
 
-theorem Inv.reset {L : Live} {ever : List AreaT} {r r' : Rec} (h : Inv L ever r) (new : List AreaT)
+theorem Inv.reset {S : Prop} {L : Live} {ever : List AreaT} {r r' : Rec} (h : Inv S L ever r) (new : List AreaT)
     (hnew : ∀ a ∈ new, AreaOK a ∧ a.kind = .region) (hrun : resetRegions r new = .ok r') :
-    Inv (L.reset new) (ever ++ new) r' := by
+    Inv S (L.reset new) (ever ++ new) r' := by
   have hok : ∀ a ∈ ever ++ new, AreaOK a := by
     intro a ha
     rcases List.mem_append.1 ha with ha | ha
@@ -242,7 +242,7 @@ theorem Inv.reset {L : Live} {ever : List AreaT} {r r' : Rec} (h : Inv L ever r)
 
 /-! ### the observing calls -/
 
-theorem InvCore.peekCds {L : Live} {ever : List AreaT} {r : Rec} (c : InvCache r) :
+theorem InvCore.peekCds {S : Prop} {L : Live} {ever : List AreaT} {r : Rec} (c : InvCache r) :
     CoreEq r (peekCds r) ∧ InvCache (peekCds r) ∧ (peekCds r).log = r.log ++ [[r.genes.map (·.id)]] := by
   unfold Lookup.peekCds
   by_cases hd : (r.cdsCacheDirty || r.genes.isEmpty) = true
